@@ -305,6 +305,18 @@ def _c12_inner(case):
     return case.get("src"), case.get("case") or {}
 
 
+class _Count(int):
+    """value count of a delta page, with the page's block size"""
+    def __new__(cls, n, block):
+        o = int.__new__(cls, n)
+        o.block = block
+        return o
+
+    @property
+    def one_left_after_full_blocks(self):
+        return int(self) % self.block == 1
+
+
 def _c12_delta_pages(inner):
     """[(non-null values in page)] for DELTA_BINARY_PACKED pages of a C03 plan."""
     out = []
@@ -316,7 +328,8 @@ def _c12_delta_pages(inner):
             for i, p in enumerate(pages):
                 cnt = (len(rows) - pos) if (p.get("n") is None or i == len(pages) - 1) else min(p["n"], len(rows) - pos)
                 if p.get("encoding") == "DELTA_BINARY_PACKED":
-                    out.append(sum(1 for v in rows[pos:pos + cnt] if v is not None))
+                    nn = sum(1 for v in rows[pos:pos + cnt] if v is not None)
+                    out.append(_Count(nn, (p.get("delta") or {}).get("block_size", 128)))
                 pos += cnt
     return out
 
@@ -358,16 +371,17 @@ def c12_bitpacked_width(case, out):
 
 @predicate
 def c12_delta_single_value(case, out):
-    """delta_binary_unpack always reads a block header (min delta, bit widths) after the page header, also when
-    the page holds a single value and no block follows: reads one to a few bytes past the page buffer."""
+    """delta_binary_unpack reads a block header (min delta, bit widths) whenever a value is still to come - also for the
+    last value of a page that ends exactly after full blocks (1, block+1, 2*block+1 ... values), where no block follows:
+    it reads one to a few bytes past the page buffer."""
     src, inner = _c12_inner(case)
     sig = out["sig"]
     if "READ" not in sig or not any(f in sig for f in ("read_unsigned_var_int", "delta_binary_unpack", "NumpyIO_read")):
         return False
     if src == "C03":
-        return any(n <= 1 for n in _c12_delta_pages(inner))
+        return any(n.one_left_after_full_blocks for n in _c12_delta_pages(inner))
     if src == "C11":
-        return inner.get("f") == "delta"
+        return inner.get("f") == "delta" and bool(inner.get("single"))
     return False
 
 
